@@ -977,7 +977,7 @@ package analysis
 // generated by /verif/tools/gen_pe_contracts.py (patterns written once, enums derived)
 
 //@ fun pkey(prefix string, i int) string = "#" + path.Join(prefix, "parameters", strconv.Itoa(i))
-//@ fun hkey(refPref string, h string) string = "#" + path.Join(refPref, "headers", h)
+//@ fun hkey(refPref string, h string) string = "#" + path.Join(refPref, "headers", jsonpointer.Escape(h))
 
 // the items chain under an owner: every (key, Pat) pair it declares
 //@ fun itPat(k string, p string, items *spec.Items, prefix string, name string) bool = items != nil && ((k == "#" + path.Join(prefix, name) && p == items.Pattern && p != "") || itPat(k, p, items.Items, path.Join(prefix, name), name))
@@ -1479,7 +1479,7 @@ package analysis
 //@   ensures forall p in dom(docPaths(s)) :: docPaths(s)[p].Ref.String() != "" ==> ("#" + slashpath.Join("/paths", jsonpointer.Escape(p))) in dom(s.references.pathItems) && ("#" + slashpath.Join("/paths", jsonpointer.Escape(p))) in dom(s.references.allRefs)
 //@   ensures forall p in dom(docPaths(s)) :: forall i in 0..len(docPaths(s)[p].Parameters) :: (docPaths(s)[p].Parameters[i].Ref.String() != "" ==> ("#" + slashpath.Join("/paths", jsonpointer.Escape(p), "parameters", strconv.Itoa(i))) in dom(s.references.parameters) && ("#" + slashpath.Join("/paths", jsonpointer.Escape(p), "parameters", strconv.Itoa(i))) in dom(s.references.allRefs)) && (forall k string :: forall r spec.Ref :: itRef(k, r, docPaths(s)[p].Parameters[i].Items, slashpath.Join("/paths", jsonpointer.Escape(p), "parameters", strconv.Itoa(i)), "items") ==> k in dom(s.references.items) && k in dom(s.references.allRefs)) && (docPaths(s)[p].Parameters[i].Schema != nil ==> (forall k string :: forall r spec.Ref :: schRef(k, r, *docPaths(s)[p].Parameters[i].Schema, slashpath.Join("/paths", jsonpointer.Escape(p), "parameters", strconv.Itoa(i)), "schema") ==> k in dom(s.references.schemas) && k in dom(s.references.allRefs)))
 //@   ensures forall n in dom(s.spec.Parameters) :: (forall k string :: forall r spec.Ref :: itRef(k, r, s.spec.Parameters[n].Items, slashpath.Join("/parameters", jsonpointer.Escape(n)), "items") ==> k in dom(s.references.items) && k in dom(s.references.allRefs)) && (s.spec.Parameters[n].In == "body" && s.spec.Parameters[n].Schema != nil ==> (forall k string :: forall r spec.Ref :: schRef(k, r, *s.spec.Parameters[n].Schema, slashpath.Join("/parameters", jsonpointer.Escape(n)), "schema") ==> k in dom(s.references.schemas) && k in dom(s.references.allRefs)))
-//@   ensures forall n in dom(s.spec.Responses) :: (forall h in dom(s.spec.Responses[n].Headers) :: (forall k string :: forall r spec.Ref :: itRef(k, r, s.spec.Responses[n].Headers[h].Items, slashpath.Join(slashpath.Join("/responses", jsonpointer.Escape(n)), "headers", h), "items") ==> k in dom(s.references.items) && k in dom(s.references.allRefs))) && (s.spec.Responses[n].Schema != nil ==> (forall k string :: forall r spec.Ref :: schRef(k, r, *s.spec.Responses[n].Schema, slashpath.Join("/responses", jsonpointer.Escape(n)), "schema") ==> k in dom(s.references.schemas) && k in dom(s.references.allRefs)))
+//@   ensures forall n in dom(s.spec.Responses) :: (forall h in dom(s.spec.Responses[n].Headers) :: (forall k string :: forall r spec.Ref :: itRef(k, r, s.spec.Responses[n].Headers[h].Items, slashpath.Join(slashpath.Join("/responses", jsonpointer.Escape(n)), "headers", jsonpointer.Escape(h)), "items") ==> k in dom(s.references.items) && k in dom(s.references.allRefs))) && (s.spec.Responses[n].Schema != nil ==> (forall k string :: forall r spec.Ref :: schRef(k, r, *s.spec.Responses[n].Schema, slashpath.Join("/responses", jsonpointer.Escape(n)), "schema") ==> k in dom(s.references.schemas) && k in dom(s.references.allRefs)))
 //@   ensures forall n in dom(s.spec.Definitions) :: (forall k string :: forall r spec.Ref :: schRef(k, r, s.spec.Definitions[n], "/definitions", n) ==> k in dom(s.references.schemas) && k in dom(s.references.allRefs))
 //@   loop 1: modifies map s.consumes
 //@   loop 2: modifies map s.produces
@@ -1502,18 +1502,18 @@ package analysis
 //@   loop 7: invariant forall p in dom(docPaths(s)) :: docPaths(s)[p].Ref.String() != "" ==> ("#" + slashpath.Join("/paths", jsonpointer.Escape(p))) in dom(s.references.pathItems) && ("#" + slashpath.Join("/paths", jsonpointer.Escape(p))) in dom(s.references.allRefs)
 //@   loop 7: invariant forall p in dom(docPaths(s)) :: forall i in 0..len(docPaths(s)[p].Parameters) :: (docPaths(s)[p].Parameters[i].Ref.String() != "" ==> ("#" + slashpath.Join("/paths", jsonpointer.Escape(p), "parameters", strconv.Itoa(i))) in dom(s.references.parameters) && ("#" + slashpath.Join("/paths", jsonpointer.Escape(p), "parameters", strconv.Itoa(i))) in dom(s.references.allRefs)) && (forall k string :: forall r spec.Ref :: itRef(k, r, docPaths(s)[p].Parameters[i].Items, slashpath.Join("/paths", jsonpointer.Escape(p), "parameters", strconv.Itoa(i)), "items") ==> k in dom(s.references.items) && k in dom(s.references.allRefs)) && (docPaths(s)[p].Parameters[i].Schema != nil ==> (forall k string :: forall r spec.Ref :: schRef(k, r, *docPaths(s)[p].Parameters[i].Schema, slashpath.Join("/paths", jsonpointer.Escape(p), "parameters", strconv.Itoa(i)), "schema") ==> k in dom(s.references.schemas) && k in dom(s.references.allRefs)))
 //@   loop 7: invariant forall n in dom(s.spec.Parameters) :: (forall k string :: forall r spec.Ref :: itRef(k, r, s.spec.Parameters[n].Items, slashpath.Join("/parameters", jsonpointer.Escape(n)), "items") ==> k in dom(s.references.items) && k in dom(s.references.allRefs)) && (s.spec.Parameters[n].In == "body" && s.spec.Parameters[n].Schema != nil ==> (forall k string :: forall r spec.Ref :: schRef(k, r, *s.spec.Parameters[n].Schema, slashpath.Join("/parameters", jsonpointer.Escape(n)), "schema") ==> k in dom(s.references.schemas) && k in dom(s.references.allRefs)))
-//@   loop 7: invariant forall n in seen7 :: (forall h in dom(s.spec.Responses[n].Headers) :: (forall k string :: forall r spec.Ref :: itRef(k, r, s.spec.Responses[n].Headers[h].Items, slashpath.Join(slashpath.Join("/responses", jsonpointer.Escape(n)), "headers", h), "items") ==> k in dom(s.references.items) && k in dom(s.references.allRefs))) && (s.spec.Responses[n].Schema != nil ==> (forall k string :: forall r spec.Ref :: schRef(k, r, *s.spec.Responses[n].Schema, slashpath.Join("/responses", jsonpointer.Escape(n)), "schema") ==> k in dom(s.references.schemas) && k in dom(s.references.allRefs)))
+//@   loop 7: invariant forall n in seen7 :: (forall h in dom(s.spec.Responses[n].Headers) :: (forall k string :: forall r spec.Ref :: itRef(k, r, s.spec.Responses[n].Headers[h].Items, slashpath.Join(slashpath.Join("/responses", jsonpointer.Escape(n)), "headers", jsonpointer.Escape(h)), "items") ==> k in dom(s.references.items) && k in dom(s.references.allRefs))) && (s.spec.Responses[n].Schema != nil ==> (forall k string :: forall r spec.Ref :: schRef(k, r, *s.spec.Responses[n].Schema, slashpath.Join("/responses", jsonpointer.Escape(n)), "schema") ==> k in dom(s.references.schemas) && k in dom(s.references.allRefs)))
 //@   loop 8: invariant (forall k string :: old(k in dom(s.references.schemas)) ==> k in dom(s.references.schemas)) && (forall k string :: old(k in dom(s.references.parameters)) ==> k in dom(s.references.parameters)) && (forall k string :: old(k in dom(s.references.responses)) ==> k in dom(s.references.responses)) && (forall k string :: old(k in dom(s.references.items)) ==> k in dom(s.references.items)) && (forall k string :: old(k in dom(s.references.pathItems)) ==> k in dom(s.references.pathItems)) && (forall k string :: old(k in dom(s.references.allRefs)) ==> k in dom(s.references.allRefs))
 //@   loop 8: invariant forall p in dom(docPaths(s)) :: docPaths(s)[p].Ref.String() != "" ==> ("#" + slashpath.Join("/paths", jsonpointer.Escape(p))) in dom(s.references.pathItems) && ("#" + slashpath.Join("/paths", jsonpointer.Escape(p))) in dom(s.references.allRefs)
 //@   loop 8: invariant forall p in dom(docPaths(s)) :: forall i in 0..len(docPaths(s)[p].Parameters) :: (docPaths(s)[p].Parameters[i].Ref.String() != "" ==> ("#" + slashpath.Join("/paths", jsonpointer.Escape(p), "parameters", strconv.Itoa(i))) in dom(s.references.parameters) && ("#" + slashpath.Join("/paths", jsonpointer.Escape(p), "parameters", strconv.Itoa(i))) in dom(s.references.allRefs)) && (forall k string :: forall r spec.Ref :: itRef(k, r, docPaths(s)[p].Parameters[i].Items, slashpath.Join("/paths", jsonpointer.Escape(p), "parameters", strconv.Itoa(i)), "items") ==> k in dom(s.references.items) && k in dom(s.references.allRefs)) && (docPaths(s)[p].Parameters[i].Schema != nil ==> (forall k string :: forall r spec.Ref :: schRef(k, r, *docPaths(s)[p].Parameters[i].Schema, slashpath.Join("/paths", jsonpointer.Escape(p), "parameters", strconv.Itoa(i)), "schema") ==> k in dom(s.references.schemas) && k in dom(s.references.allRefs)))
 //@   loop 8: invariant forall n in dom(s.spec.Parameters) :: (forall k string :: forall r spec.Ref :: itRef(k, r, s.spec.Parameters[n].Items, slashpath.Join("/parameters", jsonpointer.Escape(n)), "items") ==> k in dom(s.references.items) && k in dom(s.references.allRefs)) && (s.spec.Parameters[n].In == "body" && s.spec.Parameters[n].Schema != nil ==> (forall k string :: forall r spec.Ref :: schRef(k, r, *s.spec.Parameters[n].Schema, slashpath.Join("/parameters", jsonpointer.Escape(n)), "schema") ==> k in dom(s.references.schemas) && k in dom(s.references.allRefs)))
-//@   loop 8: invariant forall n in seen7 :: n != key7 ==> (forall h in dom(s.spec.Responses[n].Headers) :: (forall k string :: forall r spec.Ref :: itRef(k, r, s.spec.Responses[n].Headers[h].Items, slashpath.Join(slashpath.Join("/responses", jsonpointer.Escape(n)), "headers", h), "items") ==> k in dom(s.references.items) && k in dom(s.references.allRefs))) && (s.spec.Responses[n].Schema != nil ==> (forall k string :: forall r spec.Ref :: schRef(k, r, *s.spec.Responses[n].Schema, slashpath.Join("/responses", jsonpointer.Escape(n)), "schema") ==> k in dom(s.references.schemas) && k in dom(s.references.allRefs)))
-//@   loop 8: invariant forall h in seen :: (forall k string :: forall r spec.Ref :: itRef(k, r, response.Headers[h].Items, slashpath.Join(refPref, "headers", h), "items") ==> k in dom(s.references.items) && k in dom(s.references.allRefs))
+//@   loop 8: invariant forall n in seen7 :: n != key7 ==> (forall h in dom(s.spec.Responses[n].Headers) :: (forall k string :: forall r spec.Ref :: itRef(k, r, s.spec.Responses[n].Headers[h].Items, slashpath.Join(slashpath.Join("/responses", jsonpointer.Escape(n)), "headers", jsonpointer.Escape(h)), "items") ==> k in dom(s.references.items) && k in dom(s.references.allRefs))) && (s.spec.Responses[n].Schema != nil ==> (forall k string :: forall r spec.Ref :: schRef(k, r, *s.spec.Responses[n].Schema, slashpath.Join("/responses", jsonpointer.Escape(n)), "schema") ==> k in dom(s.references.schemas) && k in dom(s.references.allRefs)))
+//@   loop 8: invariant forall h in seen :: (forall k string :: forall r spec.Ref :: itRef(k, r, response.Headers[h].Items, slashpath.Join(refPref, "headers", jsonpointer.Escape(h)), "items") ==> k in dom(s.references.items) && k in dom(s.references.allRefs))
 //@   loop 9: invariant (forall k string :: old(k in dom(s.references.schemas)) ==> k in dom(s.references.schemas)) && (forall k string :: old(k in dom(s.references.parameters)) ==> k in dom(s.references.parameters)) && (forall k string :: old(k in dom(s.references.responses)) ==> k in dom(s.references.responses)) && (forall k string :: old(k in dom(s.references.items)) ==> k in dom(s.references.items)) && (forall k string :: old(k in dom(s.references.pathItems)) ==> k in dom(s.references.pathItems)) && (forall k string :: old(k in dom(s.references.allRefs)) ==> k in dom(s.references.allRefs))
 //@   loop 9: invariant forall p in dom(docPaths(s)) :: docPaths(s)[p].Ref.String() != "" ==> ("#" + slashpath.Join("/paths", jsonpointer.Escape(p))) in dom(s.references.pathItems) && ("#" + slashpath.Join("/paths", jsonpointer.Escape(p))) in dom(s.references.allRefs)
 //@   loop 9: invariant forall p in dom(docPaths(s)) :: forall i in 0..len(docPaths(s)[p].Parameters) :: (docPaths(s)[p].Parameters[i].Ref.String() != "" ==> ("#" + slashpath.Join("/paths", jsonpointer.Escape(p), "parameters", strconv.Itoa(i))) in dom(s.references.parameters) && ("#" + slashpath.Join("/paths", jsonpointer.Escape(p), "parameters", strconv.Itoa(i))) in dom(s.references.allRefs)) && (forall k string :: forall r spec.Ref :: itRef(k, r, docPaths(s)[p].Parameters[i].Items, slashpath.Join("/paths", jsonpointer.Escape(p), "parameters", strconv.Itoa(i)), "items") ==> k in dom(s.references.items) && k in dom(s.references.allRefs)) && (docPaths(s)[p].Parameters[i].Schema != nil ==> (forall k string :: forall r spec.Ref :: schRef(k, r, *docPaths(s)[p].Parameters[i].Schema, slashpath.Join("/paths", jsonpointer.Escape(p), "parameters", strconv.Itoa(i)), "schema") ==> k in dom(s.references.schemas) && k in dom(s.references.allRefs)))
 //@   loop 9: invariant forall n in dom(s.spec.Parameters) :: (forall k string :: forall r spec.Ref :: itRef(k, r, s.spec.Parameters[n].Items, slashpath.Join("/parameters", jsonpointer.Escape(n)), "items") ==> k in dom(s.references.items) && k in dom(s.references.allRefs)) && (s.spec.Parameters[n].In == "body" && s.spec.Parameters[n].Schema != nil ==> (forall k string :: forall r spec.Ref :: schRef(k, r, *s.spec.Parameters[n].Schema, slashpath.Join("/parameters", jsonpointer.Escape(n)), "schema") ==> k in dom(s.references.schemas) && k in dom(s.references.allRefs)))
-//@   loop 9: invariant forall n in dom(s.spec.Responses) :: (forall h in dom(s.spec.Responses[n].Headers) :: (forall k string :: forall r spec.Ref :: itRef(k, r, s.spec.Responses[n].Headers[h].Items, slashpath.Join(slashpath.Join("/responses", jsonpointer.Escape(n)), "headers", h), "items") ==> k in dom(s.references.items) && k in dom(s.references.allRefs))) && (s.spec.Responses[n].Schema != nil ==> (forall k string :: forall r spec.Ref :: schRef(k, r, *s.spec.Responses[n].Schema, slashpath.Join("/responses", jsonpointer.Escape(n)), "schema") ==> k in dom(s.references.schemas) && k in dom(s.references.allRefs)))
+//@   loop 9: invariant forall n in dom(s.spec.Responses) :: (forall h in dom(s.spec.Responses[n].Headers) :: (forall k string :: forall r spec.Ref :: itRef(k, r, s.spec.Responses[n].Headers[h].Items, slashpath.Join(slashpath.Join("/responses", jsonpointer.Escape(n)), "headers", jsonpointer.Escape(h)), "items") ==> k in dom(s.references.items) && k in dom(s.references.allRefs))) && (s.spec.Responses[n].Schema != nil ==> (forall k string :: forall r spec.Ref :: schRef(k, r, *s.spec.Responses[n].Schema, slashpath.Join("/responses", jsonpointer.Escape(n)), "schema") ==> k in dom(s.references.schemas) && k in dom(s.references.allRefs)))
 //@   loop 9: invariant forall n in seen :: (forall k string :: forall r spec.Ref :: schRef(k, r, s.spec.Definitions[n], "/definitions", n) ==> k in dom(s.references.schemas) && k in dom(s.references.allRefs))
 
 // END refs-doc
